@@ -276,6 +276,48 @@ func c14R3(c *Ctx) {
 			}
 		})
 		c.check(okDown, name+"/binary-downgrade", c.ipos(sc[0]), "binary mode is dropped when the (narrowed) action does not offer it", "server keeps binary mode although the action does not offer it")
+		// the side of each test: the config goes out only when the client confirmed and supports what was asked for;
+		// a declined transfer ends with "Cancelled" and nothing else
+		fs := factsAt(sc[0].Block())
+		v, known := boolFieldFactAt(sc[0].Block(), "Confirm")
+		c.check(known && v, name+"/config-iff-confirmed", c.ipos(sc[0]), "the config is sent on the edge where the client confirmed", "the config is sent on the wrong edge of the client's confirmation")
+		_ = fs
+		for _, ci := range callsIn(f, idIs(tT+"serverExit")) {
+			if s, isS := constString(ci.Common().Args[1]); isS && s == "Cancelled" {
+				v, known := boolFieldFactAt(ci.Block(), "Confirm")
+				c.check(known && !v, name+"/cancelled-iff-declined", c.ipos(ci), "'Cancelled' is reported on the edge where the client declined", "'Cancelled' is reported on the wrong edge of the client's confirmation")
+			}
+		}
+		for _, b := range f.Blocks {
+			for k, sx := range b.Succs {
+				if len(b.Succs) != 2 {
+					continue
+				}
+				declined := false
+				for _, fc := range edgeFactsTo(b, sx) {
+					if isFieldLoad("Confirm")(fc.V) && !fc.Pol {
+						declined = true
+					}
+				}
+				if !declined {
+					continue
+				}
+				_ = k
+				hit, path := reachFrom(sx, 0, isReturn, func(in ssa.Instruction) bool {
+					ci, ok := in.(ssa.CallInstruction)
+					return ok && calleeID(ci.Common()) == tT+"serverExit"
+				})
+				c.check(hit == nil, name+"/declined=>exit-message", c.pos(b.Instrs[len(b.Instrs)-1].Pos()), "a declined transfer always ends through the server's exit message (terminal restored, 'Cancelled' shown)", "a declined transfer can return without the exit message: the terminal stays in raw mode and nothing marks the trigger as finished", c.pathStr(path)...)
+			}
+		}
+		// unsupported fork / directory requests are refused, never silently honoured: under (asked && !supported) the config is unreachable
+		for _, cap := range []struct{ arg, sup string }{{"Fork", "SupportFork"}, {"Directory", "SupportDirectory"}} {
+			as := []assumption{{pred: isFieldLoad(cap.arg), val: true}, {pred: isFieldLoad(cap.sup), val: false}}
+			c.check(!blocksUnder(f, as)[sc[0].Block()], name+"/refuses-unsupported-"+cap.arg, c.ipos(sc[0]), "a "+cap.arg+" request the client cannot honour is refused before the config is sent", "a "+cap.arg+" request the client cannot honour still reaches the config exchange")
+			// and a supported / absent request is not refused: the config stays reachable
+			ok1 := blocksUnder(f, []assumption{{pred: isFieldLoad(cap.arg), val: false}, {pred: isFieldLoad("Confirm"), val: true}, {pred: isErrTest, val: false}})[sc[0].Block()]
+			c.check(ok1, name+"/accepts-without-"+cap.arg, c.ipos(sc[0]), "without a "+cap.arg+" request the config exchange is reachable", "the config exchange is unreachable even when "+cap.arg+" was not asked for")
+		}
 	}
 	c.check(strings.Join(sets["recvFiles"], ",") == strings.Join(sets["sendFiles"], ","), "siblings/trz=tsz", "", "trz and tsz perform the same capability checks", "trz and tsz disagree on capability checks")
 	// protocol = min(action.Protocol, own) when action.Protocol > 0
@@ -688,4 +730,10 @@ func c14R7(c *Ctx) {
 		good = hit == nil && isVar("confirm")(fl[0].Common().Args[1])
 	}
 	c.check(good, "handshake/always-flush(confirm)", c.pos(d.Pos()), "every exit of the handshake flushes with the confirmed flag", "an exit of the handshake does not flush with the confirmed flag")
+}
+
+// isErrTest: v is a comparison `err != nil` (used as an assumption: no error occurred).
+func isErrTest(v ssa.Value) bool {
+	b, ok := v.(*ssa.BinOp)
+	return ok && b.Op == token.NEQ && isNilConst(b.Y) && isErrorType(b.X.Type())
 }
